@@ -6,6 +6,12 @@
   and C12 that concern the whole stack.  There is no model step here: the "model" of the
   environment is the log itself; the proofs for these properties live in the component
   models (FrontEnd, Mux/TagPool, Serial, Watermark).  Import-free.
+
+  What a verdict means about the log is proved in Props/E2EMonitor.lean (`C01_monitor_*`, `C02_monitor_*`,
+  `C09_monitor_*`, `C12_monitor_*`; lemmas in Proofs/E2EMonitorLemmas.lean): `ok` ⇔ no clause is violated at
+  any position, `fail cl (j …)` ⇒ clause `cl` is violated at position `j`, the first violated position.  For
+  those proofs the step is split into `stStep` (state; the same for every property) and `verdictAt` (verdict in
+  the state before the event); `monGo` = check before the event (`preV`), check of the event, …, `finalV`.
 -/
 import ScalesModel.Core.Run
 namespace Scales.E2E
@@ -63,32 +69,40 @@ def openLate (s : St) (cl : CallSt) : Bool :=
     | some t => decide (cl.issueT + cl.T < t)
     | none => true)
 
+/-- does call `cl`, still incomplete, miss its deadline at time `now`?  (C01 deadline clause at ticks) -/
+def callOverdue (cl : CallSt) (now : Nat) : Bool :=
+  cl.done.isNone && decide (cl.T > 0) && decide (now > roundUp (cl.issueT + cl.T))
+
+def openTag (s : St) (cl : CallSt) : V := .a (if openLate s cl then "open-late" else "open-in-time")
+
+def overdueGo (s : St) (idx now : Nat) (c : Nat) : List CallSt → Verdict
+  | [] => .ok
+  | cl :: rest =>
+    if callOverdue cl now then .fail "deadline-bound" [V.ofNat idx, V.ofNat c, openTag s cl]
+    else overdueGo s idx now (c + 1) rest
+
 /-- overdue calls at time `now` (C01 deadline clause) -/
-def overdue (s : St) (idx now : Nat) : Verdict :=
-  let rec go (c : Nat) : List CallSt → Verdict
-    | [] => .ok
-    | cl :: rest =>
-      if cl.done.isNone && decide (cl.T > 0) && decide (now > roundUp (cl.issueT + cl.T)) then
-        .fail "deadline-bound" [V.ofNat idx, V.ofNat c, .a (if openLate s cl then "open-late" else "open-in-time")]
-      else go (c + 1) rest
-  go 0 s.calls
+def overdue (s : St) (idx now : Nat) : Verdict := overdueGo s idx now 0 s.calls
 
 /-- a multiplexed connection is "still open" at `t` if it was not closed at or before `t` -/
 def connOpenAt (s : St) (conn t : Nat) : Bool := !s.closed.any (fun p => p.1 == conn && decide (p.2 ≤ t))
 
+/-- a timed-out call whose request was on a still-open multiplexed connection and has no discard naming its tag -/
+def discardBad (s : St) (mux : Bool) (cl : CallSt) : Bool :=
+  match cl.done with
+  | some (.timeout, t) =>
+    mux && cl.reqs.any (fun r => decide (r.2.2 ≤ t) && connOpenAt s r.1 t &&
+      !cl.discards.any (fun d => d.1 == r.1 && d.2 == r.2.1))
+  | _ => false
+
+def discardsGo (s : St) (idx : Nat) (mux : Bool) (c : Nat) : List CallSt → Verdict
+  | [] => .ok
+  | cl :: rest =>
+    if discardBad s mux cl then .fail "discard-missing" [V.ofNat idx, V.ofNat c] else discardsGo s idx mux (c + 1) rest
+
 /-- at the end of the log: every timed-out call whose request was on a still-open multiplexed
     connection has a discard naming its tag (C12, second clause) -/
-def discardsOk (s : St) (idx : Nat) (mux : Bool) : Verdict :=
-  let rec go (c : Nat) : List CallSt → Verdict
-    | [] => .ok
-    | cl :: rest =>
-      let bad := match cl.done with
-        | some (.timeout, t) =>
-          mux && cl.reqs.any (fun r => decide (r.2.2 ≤ t) && connOpenAt s r.1 t &&
-            !cl.discards.any (fun d => d.1 == r.1 && d.2 == r.2.1))
-        | _ => false
-      if bad then .fail "discard-missing" [V.ofNat idx, V.ofNat c] else go (c + 1) rest
-  go 0 s.calls
+def discardsOk (s : St) (idx : Nat) (mux : Bool) : Verdict := discardsGo s idx mux 0 s.calls
 
 def evTime : Ev → Nat
   | .issue _ _ t _ => t | .opened t => t | .done _ _ t => t | .wrote _ _ _ _ t => t
@@ -102,81 +116,108 @@ def evTime : Ev → Nat
     endpoints the aperture may legitimately retire a failed member). -/
 def retrySlack : Nat := 1000000
 
+/-- the retry owed to endpoint `o.1` since `o.2` is overdue at `now` -/
+def owedOverdue (s : St) (now : Nat) (o : Nat × Nat) : Bool :=
+  match s.upSince.find? (fun u => u.1 == o.1) with
+  | some u => decide (Nat.max u.2.1 o.2 + u.2.2 + retrySlack < now)
+  | none => false
+
 def retryOverdue (s : St) (idx now : Nat) : Verdict :=
   if s.clientClosedAt.isSome then .ok else
-  match s.owed.find? (fun o =>
-      match s.upSince.find? (fun u => u.1 == o.1) with
-      | some u => decide (Nat.max u.2.1 o.2 + u.2.2 + retrySlack < now)
-      | none => false) with
+  match s.owed.find? (owedOverdue s now) with
   | some o => .fail "no-reconnect-within-max-interval" [V.ofNat idx, V.ofNat o.1]
   | none => .ok
 
-/-- monitor step: new state and verdict for this event.  `which` selects the property. -/
-def monStep (which : Nat) (mux : Bool) (s : St) (idx : Nat) (e : Ev) : St × Verdict :=
-  match e with
-  | .issue _ T t pre => ({ s with calls := s.calls ++ [{ issueT := t, T := T, pre := pre }] }, .ok)
-  | .opened t => ({ s with openedAt := some t }, .ok)
+/-- the monitor's state after an event (the same for every property) -/
+def stStep (s : St) : Ev → St
+  | .issue _ T t pre => { s with calls := s.calls ++ [{ issueT := t, T := T, pre := pre }] }
+  | .opened t => { s with openedAt := some t }
+  | .done c o t => s.upd c (fun cl => if cl.done.isSome then cl else { cl with done := some (o, t) })
+  | .wrote c conn discard tag t =>
+    if c < 0 then s
+    else if discard then s.upd c.toNat (fun cl => { cl with discards := cl.discards ++ [(conn, tag)] })
+    else s.upd c.toNat (fun cl => { cl with reqs := cl.reqs ++ [(conn, tag, t)] })
+  | .srvgot _ _ _ _ => s
+  | .connclosed conn t => { s with closed := s.closed ++ [(conn, t)] }
+  | .tick _ => s
+  | .clientclosed t => { s with clientClosedAt := some t }
+  | .connect ep t =>
+    if s.down.any (fun d => d.1 == ep) then
+      { s with owed := (ep, t) :: s.owed.filter (fun o => o.1 != ep) }      -- refused: a retry is owed
+    else { s with owed := s.owed.filter (fun o => o.1 != ep) }              -- accepted
+  | .reach ep up t mw =>
+    if up then { s with down := s.down.filter (fun d => d.1 != ep),
+                        upSince := (ep, t, mw) :: s.upSince.filter (fun u => u.1 != ep) }
+    else { s with down := (ep, t) :: s.down.filter (fun d => d.1 != ep),
+                  upSince := s.upSince.filter (fun u => u.1 != ep) }
+
+def Outcome.isOther : Outcome → Bool
+  | .other _ => true
+  | _ => false
+
+/-- C01 on a completion event of the known call `cl` (number `c`) -/
+def doneV1 (s : St) (cl : CallSt) (idx c : Nat) (o : Outcome) (t : Nat) : Verdict :=
+  if o.isOther then
+    -- C01: "with the server's reply to that call"
+    .fail "foreign-reply" [V.ofNat idx, V.ofNat c]
+  else if cl.done.isSome then .fail "completed-twice" [V.ofNat idx, V.ofNat c]
+  else if o = .timeout && decide (t < cl.issueT + cl.T) then .fail "timeout-early" [V.ofNat idx, V.ofNat c]
+  else if decide (cl.T > 0) && decide (t > roundUp (cl.issueT + cl.T)) then
+    .fail "deadline-bound" [V.ofNat idx, V.ofNat c, openTag s cl]
+  else .ok
+
+/-- C02 on a completion event -/
+def doneV2 (idx c : Nat) (o : Outcome) : Verdict :=
+  match o with
+  | .other k => .fail "cross-talk" [V.ofNat idx, V.ofNat c, .n k]
+  | _ => .ok
+
+/-- C12 on a request frame of the known call `cl` (number `c`) written at `t` -/
+def wroteV12 (cl : CallSt) (idx c t : Nat) : Verdict :=
+  match cl.done with
+  | some (.timeout, td) => if td ≤ t then .fail "write-after-timeout" [V.ofNat idx, V.ofNat c] else .ok
+  | _ => .ok
+
+/-- the monitor's verdict on an event in state `s` (the state before the event).  `which` selects the property. -/
+def verdictAt (which : Nat) (s : St) (idx : Nat) : Ev → Verdict
   | .done c o t =>
     match s.calls[c]? with
-    | none => (s, .fail "unknown-call" [V.ofNat idx])
+    | none => .fail "unknown-call" [V.ofNat idx]
     | some cl =>
-      let v : Verdict :=
-        if which = 1 then
-          (if (match o with | .other _ => true | _ => false) then
-             -- C01: "with the server's reply to that call"
-             .fail "foreign-reply" [V.ofNat idx, V.ofNat c]
-           else if cl.done.isSome then .fail "completed-twice" [V.ofNat idx, V.ofNat c]
-           else if o = .timeout && decide (t < cl.issueT + cl.T) then .fail "timeout-early" [V.ofNat idx, V.ofNat c]
-           else if decide (cl.T > 0) && decide (t > roundUp (cl.issueT + cl.T)) then
-             .fail "deadline-bound" [V.ofNat idx, V.ofNat c, .a (if openLate s cl then "open-late" else "open-in-time")]
-           else .ok)
-        else if which = 2 then
-          (match o with
-           | .other k => .fail "cross-talk" [V.ofNat idx, V.ofNat c, .n k]
-           | _ => .ok)
-        else .ok
-      (s.upd c (fun cl => if cl.done.isSome then cl else { cl with done := some (o, t) }), v)
-  | .wrote c conn discard tag t =>
-    if c < 0 then (s, .ok)
+      if which = 1 then doneV1 s cl idx c o t
+      else if which = 2 then doneV2 idx c o
+      else .ok
+  | .wrote c _ discard _ t =>
+    if c < 0 then .ok
     else
-      let cn := c.toNat
-      match s.calls[cn]? with
-      | none => (s, .ok)
-      | some cl =>
-        if discard then (s.upd cn (fun cl => { cl with discards := cl.discards ++ [(conn, tag)] }), .ok)
-        else
-          let v : Verdict :=
-            if which = 12 then
-              (match cl.done with
-               | some (.timeout, td) =>
-                 if td ≤ t then .fail "write-after-timeout" [V.ofNat idx, V.ofNat cn] else .ok
-               | _ => .ok)
-            else .ok
-          (s.upd cn (fun cl => { cl with reqs := cl.reqs ++ [(conn, tag, t)] }), v)
+      match s.calls[c.toNat]? with
+      | none => .ok
+      | some cl => if discard then .ok else if which = 12 then wroteV12 cl idx c.toNat t else .ok
   | .srvgot c _ argsOk _ =>
-    (s, if which = 2 && (!argsOk || decide (c < 0)) then .fail "args-mangled" [V.ofNat idx] else .ok)
-  | .connclosed conn t => ({ s with closed := s.closed ++ [(conn, t)] }, .ok)
-  | .tick t => (s, if which = 1 then overdue s idx t else .ok)
-  | .clientclosed t => ({ s with clientClosedAt := some t }, .ok)
-  | .connect ep t =>
+    if which = 2 && (!argsOk || decide (c < 0)) then .fail "args-mangled" [V.ofNat idx] else .ok
+  | .tick t => if which = 1 then overdue s idx t else .ok
+  | .connect ep _ =>
     -- C09: "after the client is closed no further reconnection attempts are made"
-    let s' : St :=
-      if s.down.any (fun d => d.1 == ep) then
-        { s with owed := (ep, t) :: s.owed.filter (fun o => o.1 != ep) }      -- refused: a retry is owed
-      else { s with owed := s.owed.filter (fun o => o.1 != ep) }              -- accepted
-    (s', if which = 9 && s.clientClosedAt.isSome then .fail "connect-after-close" [V.ofNat idx, V.ofNat ep] else .ok)
-  | .reach ep up t mw =>
-    (if up then { s with down := s.down.filter (fun d => d.1 != ep),
-                         upSince := (ep, t, mw) :: s.upSince.filter (fun u => u.1 != ep) }
-     else { s with down := (ep, t) :: s.down.filter (fun d => d.1 != ep),
-                   upSince := s.upSince.filter (fun u => u.1 != ep) }, .ok)
+    if which = 9 && s.clientClosedAt.isSome then .fail "connect-after-close" [V.ofNat idx, V.ofNat ep] else .ok
+  | _ => .ok
+
+/-- monitor step: new state and verdict for this event.  `which` selects the property. -/
+def monStep (which : Nat) (_mux : Bool) (s : St) (idx : Nat) (e : Ev) : St × Verdict :=
+  (stStep s e, verdictAt which s idx e)
+
+/-- C09: the check made before every event, at the event's time -/
+def preV (which : Nat) (s : St) (idx : Nat) (e : Ev) : Verdict :=
+  if which = 9 then retryOverdue s idx (evTime e) else .ok
+
+/-- the check made at the end of the log -/
+def finalV (which : Nat) (mux : Bool) (s : St) (idx : Nat) : Verdict :=
+  if which = 12 then discardsOk s idx mux else .ok
 
 def monGo (which : Nat) (mux : Bool) (s : St) (idx : Nat) : List Ev → Verdict
-  | [] => if which = 12 then discardsOk s idx mux else .ok
+  | [] => finalV which mux s idx
   | e :: rest =>
-    let pre : Verdict := if which = 9 then retryOverdue s idx (evTime e) else .ok
-    let (s', v) := monStep which mux s idx e
-    pre.and (fun _ => v.and (fun _ => monGo which mux s' (idx + 1) rest))
+    (preV which s idx e).and (fun _ =>
+      (verdictAt which s idx e).and (fun _ => monGo which mux (stStep s e) (idx + 1) rest))
 
 /-! ### line-protocol face: the operations are the events, the observation is a constant -/
 
